@@ -285,15 +285,29 @@ static rc::Gen<std::vector<Op>> gen_phrase(const Weights &w, int nmods, const st
         auto rest = gens::weighted<std::vector<Op>>({{35, single}, {8, deliver}, {20, pubdeliver}, {8, burst}, {4, loopcycle}, {1, become_cycle}, {1, stash_cycle}, {20, batch}, {8, fdcycle}});
         return gens::weighted<std::vector<Op>>({{94, rest}, {6, batchrestart}});
     }
+    // a one-shot (or periodic) timer expires behind other ready sources of the same poll batch, whose handlers may take its module out of RUNNING and back
+    auto tmrbatch = gen::map(gen::tuple(slot, slot, slot, gens::range<long>(0, 3), gens::weighted_values<long>({{3, 4}, {2, 7}, {1, 0}, {1, 5}}), gens::range<long>(0, 4), gens::weighted_values<long>({{2, 4}, {1, 8}}), gens::range<long>(1, 4)),
+        [](std::tuple<int, int, int, long, long, long, long, long> t) {
+            int s = std::get<0>(t), f = std::get<1>(t), r = std::get<2>(t);
+            std::vector<Op> v{mkop(P::O_TMR_REG, s, 0, std::get<3>(t), std::get<4>(t))};
+            switch (std::get<5>(t)) {
+            case 0: v.push_back(mkop(P::O_TELL, f, r)); break;
+            case 1: v.push_back(mkop(P::O_TELL, f, r)); v.push_back(mkop(P::O_TELL, f, s)); break;
+            case 2: v.push_back(mkop(P::O_FD_REG, r, 0, 7 - std::get<3>(t), 0)); v.push_back(mkop(P::O_FD_WRITE, 0, 0, 7 - std::get<3>(t))); break;
+            default: v.push_back(mkop(P::O_BCAST, f, 0, 0)); break;
+            }
+            v.push_back(mkop(P::O_SLEEP, 0, 0, std::get<6>(t))); v.push_back(mkop(P::O_DISPATCH, 0, 0, std::get<7>(t)));
+            v.push_back(mkop(P::O_SLEEP, 0, 0, std::get<6>(t))); v.push_back(mkop(P::O_DISPATCH, 0, 0, 2));
+            return v; });
     if (prop == "C03") {
         auto rest = gens::weighted<std::vector<Op>>({{50, single}, {8, deliver}, {8, pubdeliver}, {3, burst}, {8, loopcycle}, {1, become_cycle}, {1, stash_cycle}, {2, batch}, {18, fdcycle}});
-        return gens::weighted<std::vector<Op>>({{74, rest}, {18, livecycle}, {8, faultcycle}});
+        return gens::weighted<std::vector<Op>>({{69, rest}, {18, livecycle}, {8, faultcycle}, {5, tmrbatch}});
     }
     if (prop == "C03" || prop == "C20" || prop == "C09" || prop == "C04") {
         size_t lw = prop == "C04" ? 6 : 18;
         auto rest = (prop == "C04") ? gens::weighted<std::vector<Op>>({{52, single}, {10, deliver}, {10, pubdeliver}, {4, burst}, {6, loopcycle}, {3, become_cycle}, {4, stash_cycle}, {3, batch}, {5, fdcycle}, {3, overflow}, {3, pillbatch}})
                                    : gens::weighted<std::vector<Op>>({{50, single}, {8, deliver}, {8, pubdeliver}, {3, burst}, {8, loopcycle}, {1, become_cycle}, {1, stash_cycle}, {2, batch}, {18, fdcycle}});
-        return gens::weighted<std::vector<Op>>({{100 - lw, rest}, {lw, livecycle}});
+        return gens::weighted<std::vector<Op>>({{100 - lw - 5, rest}, {lw, livecycle}, {5, tmrbatch}});
     }
     if (prop == "C02") return gens::weighted<std::vector<Op>>({{97, gens::weighted<std::vector<Op>>({{45, single}, {12, deliver}, {22, pubdeliver}, {6, burst}, {6, loopcycle}, {2, become_cycle}, {2, stash_cycle}, {2, batch}, {2, fdcycle}})}, {3, overflow}});
     std::map<std::string, std::vector<size_t>> tab = {
@@ -319,7 +333,20 @@ static rc::Gen<Script> gen_script(const Weights &w, int nmods, const std::string
     if (kind != P::CB_EVT) { sw.erase(P::O_STASH); sw.erase(P::O_REF_EVT); }
     if (sw.empty()) return gen::just(Script());
     if (prop == "C16" && kind == P::CB_EVT) sw[P::O_STASH] = 30;
-    return gen::map(gen::tuple(gens::vec<Op>(0, 4, gen_op_from(sw, nmods, prop)), gens::weighted_values<int>({{5, 1}, {2, 0}}), gens::weighted_values<int>({{6, 0}, {1, 4}, {1, 11}, {1, 2}, {1, 9}})),
+    // script phrases: a callback that takes a module (possibly its own) out of RUNNING and straight back, or renews a subscription, while other events of the
+    // same poll batch are still to be processed (the sources of the bounced module are re-created in between)
+    auto sphrase = gen::map(gen::tuple(gens::range<int>(0, nmods), gens::range<int>(0, nmods), gens::range<long>(0, 5), gens::range<long>(0, 8)), [kind](std::tuple<int, int, long, long> t) {
+        int x = std::get<0>(t), y = std::get<1>(t); std::vector<Op> v;
+        switch (std::get<2>(t)) {
+        case 0: case 1: v = {mkop(P::O_PAUSE, x), mkop(P::O_RESUME, x)}; break;
+        case 2: v = {mkop(P::O_PAUSE, x), mkop(P::O_RESUME, x), mkop(P::O_TELL, y, x)}; break;
+        case 3: v = {mkop(P::O_UNSUB, x, 0, std::get<3>(t)), mkop(P::O_SUB, x, 0, std::get<3>(t), 0)}; break;
+        default: v = {mkop(P::O_PAUSE, x), mkop(P::O_PAUSE, y), mkop(P::O_RESUME, y), mkop(P::O_RESUME, x)}; break;
+        }
+        if (kind == P::CB_EVAL) v.clear();
+        return v; });
+    auto sops = gens::weighted<std::vector<Op>>({{88, gens::vec<Op>(0, 4, gen_op_from(sw, nmods, prop))}, {12, sphrase}});
+    return gen::map(gen::tuple(sops, gens::weighted_values<int>({{5, 1}, {2, 0}}), gens::weighted_values<int>({{6, 0}, {1, 4}, {1, 11}, {1, 2}, {1, 9}})),
                     [](std::tuple<std::vector<Op>, int, int> t) { Script s; s.ops = std::get<0>(t); s.ret = std::get<1>(t); s.err = std::get<2>(t); return s; });
 }
 
